@@ -130,6 +130,50 @@ def _ttr(E, name, fitted, has_reg=True):
     return o
 
 
+def _user_transformer(E):
+    """a reciprocal transformer object supplied by the caller (any subclass of BaseReciprocalTransformer)"""
+    return models.new_estimator(E, "user_tr", "UserReciprocalTransformer", ("fit", "transform", "get_fct_inv", "get_params", "set_params"),
+                                bases=("BaseEstimator", "TransformerMixin", "BaseReciprocalTransformer"))
+
+
+@contract(T + "::_common_get_transform", "C13")
+class GetTransform(Contract):
+    """the transformer a model fits and keeps as transformer_ is its OWN: built from the name, or a fresh clone of the caller's
+    object - never the caller's object itself (whose later fit elsewhere would silently change what this model predicts)"""
+    variants = [("name", "log", True), ("name", "exp(x)-1", True), ("name", "permute", False), ("name", "permute", True),
+                ("object", None, False), ("object", None, True), ("other", None, True)]
+
+    def setup(self, E, v):
+        kind, name, reg = v
+        t = name if kind == "name" else (_user_transformer(E) if kind == "object" else E.int("not_a_transformer"))
+        return dict(transformer=t, is_regression=reg, _kind=kind)
+
+    def old(self, E, a):
+        return dict(tl=len(E.trace))
+
+    def signals(self, E, a, exc, old):
+        if a._kind == "other":
+            return {"anything_else_is_refused_with_TypeError": z3.BoolVal(exc == "TypeError")}
+        return None
+
+    def ensures(self, E, a, res, old):
+        if a._kind == "other":
+            return {"must_be_refused": z3.BoolVal(False)}
+        if a._kind == "object":
+            return {"a_fresh_clone_never_the_callers_object": z3.BoolVal(
+                isinstance(res, Obj) and res is not a.transformer and res.fields.get("$clone_of") is a.transformer)}
+        ok = isinstance(res, Obj) and res is not a.transformer
+        if a.transformer == "permute":
+            return {"a_new_permutation_transformer": z3.BoolVal(ok and res.tag == "PermutationReciprocalTransformer"),
+                    "closest_only_for_regression": z3.BoolVal(ok and res.fields.get("closest") is a.is_regression),
+                    "not_fitted_yet": z3.BoolVal(ok and "permutation_" not in res.fields)}
+        return {"a_new_function_transformer_of_that_name": z3.BoolVal(
+            ok and res.tag == "FunctionReciprocalTransformer" and res.fields.get("fct") == a.transformer),
+            "not_fitted_yet": z3.BoolVal(ok and "fct_" not in res.fields)}
+
+    canaries = {"returns_the_callers_object": lambda E, a, res, old: z3.BoolVal(a._kind != "object" or res is a.transformer)}
+
+
 @contract(T + "::TransformedTargetRegressor2.fit", "C13")
 class TtrFit(Contract):
     variants = [(n, hw) for n in ("log", "exp(x)-1") for hw in (False, True)]
@@ -377,7 +421,7 @@ class Classes(Contract):
 
 
 META = dict(
-    level="proof", assumptions=["A1", "A2", "A5", "A6", "A7", "A9"],
+    level="proof", lean_files=["lemmas/Sums.lean"], assumptions=["A1", "A2", "A5", "A6", "A7", "A9"],
     trusted=["numpy.log/exp/log1p/expm1 are element-wise ln/exp with ln(exp x)=x, exp(ln x)=x (x>0), log1p x=ln(1+x), expm1 x=exp x-1",
              "numpy.random.permutation / RandomState.permutation return a bijection of their argument",
              "estimator protocol for the wrapped regressor/classifier (clone, fit returns receiver, row-wise predict)"],
